@@ -48,6 +48,27 @@ class PublishStatus:
         return self.supvisors.mapper.local_identifier in self.instance_state_modes
 
 
+@contract('statemodes:SupvisorsStateModes.master_identifier[setter]', props=['C01'])
+class MasterIdentifierSetter:
+    """'master_identifier: Master designated by one instance, published to peers': the local declaration is written
+    and published when it changes"""
+    raises = ()
+
+    def modifies(self, identifier):
+        return [field(self.instance_state_modes[self.supvisors.mapper.local_identifier], 'master_identifier')]
+
+    def pre_local_known(self):
+        local = self.supvisors.mapper.local_identifier
+        return local is not None and local in self.instance_state_modes
+
+    def post_declared(self, identifier):
+        return self.instance_state_modes[self.supvisors.mapper.local_identifier].master_identifier == identifier
+
+    def post_effect_published_iff_changed(self, identifier, old):
+        old_master = old.self.instance_state_modes[self.supvisors.mapper.local_identifier].master_identifier
+        return ite(old_master == identifier, no_effect(), count_effects('publish_status') == 1)
+
+
 def local_sm(sms):
     """the StateModes of the local instance inside a SupvisorsStateModes"""
     return sms.instance_state_modes[sms.supvisors.mapper.local_identifier]
@@ -106,6 +127,14 @@ RUNNING = SupvisorsInstanceStates.RUNNING
 def sms_pre(sms):
     sv = sms.supvisors
     return sv.state_modes is sms and valid_structure(sv) and distinct_entries(sv)
+
+
+def sms_lean(sms):
+    """the part of valid_structure the election code reads: the local instance is known and the local view has an entry
+    for every known instance"""
+    local = sms.supvisors.mapper.local_identifier
+    return (local is not None and local in sms.instance_state_modes
+            and forall(str, lambda i: implies(i in sms.instance_state_modes, i in local_sm(sms).instance_states)))
 
 
 def seen_running(sms, i):
@@ -170,6 +199,17 @@ class MapperFilter:
     def post_fresh(self, result):
         return was_fresh(result)
 
+    def post_members_by_entry(self, identifier_list, result):
+        """consequence of post_members, stated per entry of the list given (same purpose)"""
+        return forall(int, lambda j: implies(
+            0 <= j and j < len(identifier_list),
+            ite(identifier_list[j] in self._instances, identifier_list[j] in result,
+                ite(identifier_list[j] in self._nick_identifiers, self._nick_identifiers[identifier_list[j]] in result,
+                    implies(identifier_list[j] in self.stereotypes,
+                            forall(int, lambda t: implies(
+                                0 <= t and t < len(self.stereotypes[identifier_list[j]]),
+                                self.stereotypes[identifier_list[j]][t] in result)))))))
+
     def post_known(self, result):
         """every identifier returned is a known instance (mapper invariant: nick identifiers and stereotypes only name
         known instances - add_instance, _assign_stereotypes)"""
@@ -186,10 +226,19 @@ class GetMasterIdentifiers:
         return []
 
     def pre_valid(self):
-        return sms_pre(self)
+        return sms_lean(self)
 
     def post_declared(self, result):
         return forall(str, lambda m: (m in result) == declared(self, m))
+
+    def post_fresh(self, result):
+        """callers modify the returned set (select_master / accept_master discard the empty string)"""
+        return was_fresh(result)
+
+    def post_declared_by_declarer(self, result):
+        """the same, stated per declaring instance"""
+        return forall(str, lambda i: implies(i in self.instance_state_modes and seen_running(self, i),
+                                             self.instance_state_modes[i].master_identifier in result))
 
 
 @contract('statemodes:SupvisorsStateModes.check_master', props=['C01'])
@@ -212,3 +261,60 @@ class CheckMaster:
     def post_single_master(self, result):
         return result == (not declared(self, '') and forall(str, str, lambda a, b: implies(
             declared(self, a) and declared(self, b), a == b)))
+
+
+@contract('statemodes:SupvisorsStateModes.select_master', props=['C01'])
+class SelectMaster:
+    """statement: 'A running Master that is the only one recognised is kept when instances join or leave; otherwise the
+    documented rule (a core_identifiers member if any, else the lowest nick identifier) picks among the Masters still
+    recognised, or among all running instances when there is none.'  Every pool is read in the PRE-state (the new Master
+    is itself a declaration of the local instance afterwards)."""
+    raises = ()
+
+    def modifies(self):
+        return [field(local_sm(self), 'master_identifier')]
+
+    def pre_valid(self):
+        return sms_lean(self)
+
+    def pre_running_known(self):
+        """valid_structure: the local view and the mapper have the same identifiers"""
+        return forall(str, lambda i: implies(i in local_sm(self).instance_states, i in self.supvisors.mapper._instances))
+
+    def pre_local_running(self):
+        """called from ElectionState.next / SynchronizationState with the local instance RUNNING"""
+        return seen_running(self, self.supvisors.mapper.local_identifier)
+
+    def post_among_the_candidates(self, old):
+        """'picks among the Masters still recognised, or among all running instances when there is none'"""
+        return candidate(old.self, local_sm(self).master_identifier)
+
+    def post_core_member_if_any(self, old):
+        """'a core_identifiers member if any' - of the candidates"""
+        m = local_sm(self).master_identifier
+        return forall(str, lambda y: implies(candidate(old.self, y) and core_member(old.self, y),
+                                             core_member(old.self, m)))
+
+    def post_lowest_nick_of_the_core_candidates(self, old):
+        """'else the lowest nick identifier' - of the preferred pool, part 1: the preferred pool is made of the core
+        members among the candidates when there are some (with the next clause: forall x. preferred(old.self, x) ==>
+        nick(master) <= nick(x); split on 'if any' because the solver needs the two cases apart)"""
+        m = local_sm(self).master_identifier
+        nick = self.supvisors.mapper._instances
+        return forall(str, lambda x: implies(
+            candidate(old.self, x) and core_member(old.self, x),
+            rank(nick[m].nick_identifier) <= rank(nick[x].nick_identifier)))
+
+    def post_lowest_nick_of_the_candidates_without_core(self, old):
+        """part 2: the preferred pool is made of all the candidates when none of them is a core member"""
+        m = local_sm(self).master_identifier
+        nick = self.supvisors.mapper._instances
+        return implies(not exists(str, lambda y: candidate(old.self, y) and core_member(old.self, y)),
+                       forall(str, lambda x: implies(
+                           candidate(old.self, x), rank(nick[m].nick_identifier) <= rank(nick[x].nick_identifier))))
+
+    def post_only_recognised_master_is_kept(self, old):
+        """corollary: 'A running Master that is the only one recognised is kept'"""
+        return forall(str, lambda m: implies(
+            recognised(old.self, m) and forall(str, lambda y: implies(recognised(old.self, y), y == m)),
+            local_sm(self).master_identifier == m))
